@@ -136,6 +136,7 @@ static Verdict evaluate(const LifeCase &c, const c11_out &o) {
   PBT_REQUIRE(o.res.live_fds == 0, o.res.live_fds << " descriptor(s) acquired by the pool are still open after tp_destroy");
   PBT_REQUIRE(o.res.live_allocs == 0, o.res.live_allocs << " allocation(s) made by the pool were never freed");
   PBT_REQUIRE(o.res.double_free == 0, "the pool freed a pointer twice");
+  PBT_REQUIRE(o.res.bad_joins == 0, o.res.bad_joins << " pthread_join() call(s) on a thread that another caller had already joined (or that was never created): two waiters claimed the same worker");
   PBT_REQUIRE(o.res.close_unknown == 0, "the pool closed a descriptor it does not own (or closed one twice): " << o.res.close_unknown);
   bool nt = false;
   if (c.shutdown_mode == 1) { label("shutdown_from_pool_thread"); nt = true; }
